@@ -364,6 +364,51 @@ func (e *Engine) sprintf(st *State, args []Value) Value {
 		return nil
 	}
 	va := args[1].(SliceV)
+	// all operands concrete integers/strings/bools: use the real fmt
+	{
+		goArgs := make([]interface{}, 0, va.Len)
+		ok := true
+		for i := 0; i < va.Len && ok; i++ {
+			a, isI := st.sliceGet(va, i).(IfaceV)
+			if !isI {
+				ok = false
+				break
+			}
+			switch v := a.V.(type) {
+			case *Term:
+				if !v.IsConst() || a.T == nil {
+					ok = false
+					break
+				}
+				if b, isB := a.T.Underlying().(*types.Basic); isB && a.T == types.Type(b) {
+					switch {
+					case v.sort.K == SBool:
+						goArgs = append(goArgs, v.IsTrue())
+					case b.Info()&types.IsUnsigned != 0:
+						goArgs = append(goArgs, v.Uint64())
+					case b.Info()&types.IsInteger != 0:
+						goArgs = append(goArgs, v.Int64())
+					default:
+						ok = false
+					}
+				} else {
+					ok = false // named types may have String methods
+				}
+			case StringV:
+				cs, c := v.Concrete()
+				if !c || !isString(a.T) || a.T != types.Type(types.Typ[types.String]) {
+					ok = false
+					break
+				}
+				goArgs = append(goArgs, cs)
+			default:
+				ok = false
+			}
+		}
+		if ok {
+			return mkString(fmt.Sprintf(format, goArgs...))
+		}
+	}
 	var out []*Term
 	ai := 0
 	for i := 0; i < len(format); i++ {
